@@ -33,14 +33,16 @@ theorem SameData.refl (x : Entry) : SameData x x := rfl
 theorem SameData.symm {x y : Entry} (h : SameData x y) : SameData y x := Eq.symm h
 theorem SameData.trans {x y z : Entry} (h : SameData x y) (h' : SameData y z) : SameData x z := Eq.trans h h'
 
-theorem SameData.isRpc {x y : Entry} (h : SameData x y) : x.d.isRpc = y.d.isRpc :=
-  congrArg EData.isRpc (show nodeData x.d = nodeData y.d from h)
-theorem SameData.name {x y : Entry} (h : SameData x y) : x.name = y.name :=
-  congrArg EData.name (show nodeData x.d = nodeData y.d from h)
+theorem SameData.field {α} (f : EData → α) {x y : Entry} (h : SameData x y) :
+    f (nodeData x.d) = f (nodeData y.d) := by
+  have h' : nodeData x.d = nodeData y.d := h
+  rw [h']
+theorem SameData.isRpc {x y : Entry} (h : SameData x y) : x.d.isRpc = y.d.isRpc := h.field EData.isRpc
+theorem SameData.name {x y : Entry} (h : SameData x y) : x.name = y.name := h.field EData.name
 theorem SameData.implicitIO {x y : Entry} (h : SameData x y) (b : Bool) : implicitIO x b = implicitIO y b := by
-  have h1 : x.d.node = y.d.node := congrArg EData.node (show nodeData x.d = nodeData y.d from h)
-  have h2 : x.d.nodeMod = y.d.nodeMod := congrArg EData.nodeMod (show nodeData x.d = nodeData y.d from h)
-  have h3 : x.d.nodeKw = y.d.nodeKw := congrArg EData.nodeKw (show nodeData x.d = nodeData y.d from h)
+  have h1 : x.d.node = y.d.node := h.field EData.node
+  have h2 : x.d.nodeMod = y.d.nodeMod := h.field EData.nodeMod
+  have h3 : x.d.nodeKw = y.d.nodeKw := h.field EData.nodeKw
   simp [Goyang.Model.implicitIO, h1, h2, h3]
 
 theorem sameData_of_d {x y : Entry} (h : x.d = y.d) : SameData x y := by simp [SameData, h]
@@ -206,5 +208,228 @@ theorem fold_mstep_collision (ns : Option String) (oe : Entry) (L : List Entry) 
         intro hm
         obtain ⟨c, hc, hcn⟩ := List.mem_map.mp hm
         exact (hname c hc).2 hcn.symm
+
+/-! ### walking: one step -/
+
+theorem kid_nonrpc {e : Entry} (h : e.d.isRpc = false) (k : String) : kid e k = e.child? k := by
+  simp [kid, h]
+
+theorem kid_input {e : Entry} (h : e.d.isRpc = true) :
+    kid e "input" = some (e.inp.head?.getD (implicitIO e true)) := by
+  simp [kid, h]
+
+theorem kid_output {e : Entry} (h : e.d.isRpc = true) :
+    kid e "output" = some (e.out.head?.getD (implicitIO e false)) := by
+  simp [kid, h]
+
+theorem dataAt_nil (e : Entry) : dataAt e [] = some (nodeData e.d) := rfl
+
+theorem dataAt_cons (e : Entry) (k : String) (P : NPath) :
+    dataAt e (k :: P) = (kid e k).bind fun c => dataAt c P := by
+  simp only [dataAt, walk]
+  cases kid e k <;> simp
+
+theorem dataAt_append (e : Entry) (P Q : NPath) :
+    dataAt e (P ++ Q) = (walk e P).bind fun x => dataAt x Q := by
+  simp only [dataAt, walk_append]
+  cases walk e P <;> simp
+
+/-! ### `updateAt` along a tracked path -/
+
+/-- `g` keeps names. -/
+def NamePres (g : Entry → Entry) : Prop := ∀ y, (g y).name = y.name
+
+theorem updateAt_nil (e : Entry) (g : Entry → Entry) : e.updateAt [] g = g e := by
+  simp [Entry.updateAt]
+
+theorem updateAt_child (d : EData) (c i o : List Entry) (k : String) (q : Path) (g : Entry → Entry) :
+    (Entry.mk d c i o).updateAt (.child k :: q) g =
+      .mk d (c.map fun x => if x.name == k then x.updateAt q g else x) i o := by
+  simp [Entry.updateAt]
+
+theorem updateAt_input (d : EData) (c i o : List Entry) (q : Path) (g : Entry → Entry) :
+    (Entry.mk d c i o).updateAt (.input :: q) g = .mk d c (i.map (·.updateAt q g)) o := by
+  simp [Entry.updateAt]
+
+theorem updateAt_output (d : EData) (c i o : List Entry) (q : Path) (g : Entry → Entry) :
+    (Entry.mk d c i o).updateAt (.output :: q) g = .mk d c i (o.map (·.updateAt q g)) := by
+  simp [Entry.updateAt]
+
+theorem updateAt_cons_d (e : Entry) (s : Step) (q : Path) (g : Entry → Entry) : (e.updateAt (s :: q) g).d = e.d := by
+  cases e; cases s <;> simp [Entry.updateAt]
+
+theorem updateAt_name (e : Entry) (q : Path) (g : Entry → Entry) (hg : NamePres g) :
+    (e.updateAt q g).name = e.name := by
+  cases q with
+  | nil => rw [updateAt_nil]; exact hg e
+  | cons s q => simp [Entry.name, updateAt_cons_d]
+
+/-- Following the names `ns` from `e` goes, through nodes that are really there, along the step
+path `q` to the node `x`. -/
+inductive Tracks : Entry → NPath → Path → Entry → Prop
+  | nil (e : Entry) : Tracks e [] [] e
+  | child {e c x : Entry} {k : String} {ns : NPath} {q : Path} :
+      e.d.isRpc = false → e.child? k = some c → Tracks c ns q x → Tracks e (k :: ns) (.child k :: q) x
+  | input {e c x : Entry} {ns : NPath} {q : Path} :
+      e.d.isRpc = true → e.inp.head? = some c → Tracks c ns q x → Tracks e ("input" :: ns) (.input :: q) x
+  | output {e c x : Entry} {ns : NPath} {q : Path} :
+      e.d.isRpc = true → e.out.head? = some c → Tracks c ns q x → Tracks e ("output" :: ns) (.output :: q) x
+
+theorem Tracks.getAt {e x : Entry} {ns : NPath} {q : Path} (h : Tracks e ns q x) : e.getAt q = some x := by
+  induction h with
+  | nil e => rfl
+  | child _ hc _ ih => simp [Entry.getAt, hc, ih]
+  | input _ hc _ ih => simp [Entry.getAt, hc, ih]
+  | output _ hc _ ih => simp [Entry.getAt, hc, ih]
+
+theorem Tracks.walk {e x : Entry} {ns : NPath} {q : Path} (h : Tracks e ns q x) : walk e ns = some x := by
+  induction h with
+  | nil e => rfl
+  | child hr hc _ ih => simp [Spec.Augment.walk, kid_nonrpc hr, hc, ih]
+  | input hr hc _ ih => simp [Spec.Augment.walk, kid_input hr, hc, ih]
+  | output hr hc _ ih => simp [Spec.Augment.walk, kid_output hr, hc, ih]
+
+theorem Tracks.length {e x : Entry} {ns : NPath} {q : Path} (h : Tracks e ns q x) : ns.length = q.length := by
+  induction h <;> simp [*]
+
+/-- Extending a track by one more step. -/
+theorem Tracks.snoc {e x y : Entry} {ns : NPath} {q : Path} (h : Tracks e ns q x) {k : String} {s : Step}
+    (h1 : Tracks x [k] [s] y) : Tracks e (ns ++ [k]) (q ++ [s]) y := by
+  induction h with
+  | nil e => simpa using h1
+  | child hr hc _ ih => exact Tracks.child hr hc (ih h1)
+  | input hr hc _ ih => exact Tracks.input hr hc (ih h1)
+  | output hr hc _ ih => exact Tracks.output hr hc (ih h1)
+
+theorem Tracks.append {e x y : Entry} {ns ms : NPath} {q r : Path} (h : Tracks e ns q x) (h1 : Tracks x ms r y) :
+    Tracks e (ns ++ ms) (q ++ r) y := by
+  induction h with
+  | nil e => simpa using h1
+  | child hr hc _ ih => exact Tracks.child hr hc (ih h1)
+  | input hr hc _ ih => exact Tracks.input hr hc (ih h1)
+  | output hr hc _ ih => exact Tracks.output hr hc (ih h1)
+
+/-- Updating at the end of a track keeps the track. -/
+theorem Tracks.update {e x : Entry} {ns : NPath} {q : Path} (h : Tracks e ns q x) {g : Entry → Entry}
+    (hg : NamePres g) : Tracks (e.updateAt q g) ns q (g x) := by
+  induction h with
+  | nil e => rw [updateAt_nil]; exact Tracks.nil _
+  | @child e c x k ns q hr hc _ ih =>
+    cases e with
+    | mk d c' i o =>
+      rw [updateAt_child]
+      refine Tracks.child hr ?_ ih
+      have hG : ∀ y : Entry, ((fun y : Entry => if y.name == k then y.updateAt q g else y) y).name = y.name := by
+        intro y; by_cases hy : (y.name == k) = true <;> simp [hy, updateAt_name _ _ _ hg]
+      have := find?_map_name hG c' k
+      simp only [Entry.child?, mk_dir] at hc ⊢
+      rw [this, hc]
+      have hn : c.name = k := by simpa using List.find?_some hc
+      simp [hn]
+  | @input e c x ns q hr hc _ ih =>
+    cases e with
+    | mk d c' i o =>
+      rw [updateAt_input]
+      refine Tracks.input hr ?_ ih
+      simp only [mk_inp] at hc ⊢
+      simp [List.head?_map, hc]
+  | @output e c x ns q hr hc _ ih =>
+    cases e with
+    | mk d c' i o =>
+      rw [updateAt_output]
+      refine Tracks.output hr ?_ ih
+      simp only [mk_out] at hc ⊢
+      simp [List.head?_map, hc]
+
+/-- W1: below the updated node one sees the new node. -/
+theorem walk_update_below {e x : Entry} {np : NPath} {q : Path} (h : Tracks e np q x) {g : Entry → Entry}
+    (hg : NamePres g) (r : NPath) : walk (e.updateAt q g) (np ++ r) = walk (g x) r := by
+  rw [walk_append, (h.update hg).walk]; rfl
+
+/-- W2: off the updated node's subtree every location keeps its data. -/
+theorem dataAt_update_off {e x : Entry} {np : NPath} {q : Path} (h : Tracks e np q x) {g : Entry → Entry}
+    (hg : NamePres g) (hd : SameData (g x) x) : ∀ P : NPath, ¬ np <+: P → dataAt (e.updateAt q g) P = dataAt e P := by
+  induction h with
+  | nil e => intro P hP; exact absurd (List.nil_prefix) hP
+  | @child e c x k ns q hr hc _ ih =>
+    intro P hP
+    cases e with
+    | mk d c' i o =>
+      rw [updateAt_child]
+      cases P with
+      | nil => rfl
+      | cons k' P' =>
+        rw [dataAt_cons, dataAt_cons, kid_nonrpc (by simpa using hr), kid_nonrpc hr]
+        have hG : ∀ y : Entry, ((fun y : Entry => if y.name == k then y.updateAt q g else y) y).name = y.name := by
+          intro y; by_cases hy : (y.name == k) = true <;> simp [hy, updateAt_name _ _ _ hg]
+        have hm := find?_map_name hG c' k'
+        simp only [Entry.child?, mk_dir] at hc ⊢
+        rw [hm]
+        cases hf : c'.find? (·.name == k') with
+        | none => simp
+        | some y =>
+          have hyn : y.name = k' := by simpa using List.find?_some hf
+          simp only [Option.map_some, Option.bind_some]
+          by_cases hk : k' = k
+          · subst hk
+            rw [hf] at hc; cases hc
+            simp only [hyn, beq_self_eq_true, if_true]
+            apply ih hd
+            intro hpre; exact hP (List.cons_prefix_cons.mpr ⟨rfl, hpre⟩)
+          · have : (y.name == k) = false := by simp [hyn, hk]
+            simp [this]
+  | @input e c x ns q hr hc _ ih =>
+    intro P hP
+    cases e with
+    | mk d c' i o =>
+      rw [updateAt_input]
+      cases P with
+      | nil => rfl
+      | cons k' P' =>
+        rw [dataAt_cons, dataAt_cons]
+        simp only [mk_inp, mk_d] at hc hr
+        by_cases hk : k' = "input"
+        · subst hk
+          rw [kid_input (by simpa using hr), kid_input (by simpa using hr)]
+          simp only [mk_inp, List.head?_map, hc, Option.map_some, Option.getD_some, Option.bind_some]
+          apply ih hd
+          intro hpre; exact hP (List.cons_prefix_cons.mpr ⟨rfl, hpre⟩)
+        · have hI : implicitIO (Entry.mk d c' (i.map (·.updateAt q g)) o) false = implicitIO (Entry.mk d c' i o) false := by
+            simp [implicitIO]
+          simp [kid, hr, hk, hI]
+  | @output e c x ns q hr hc _ ih =>
+    intro P hP
+    cases e with
+    | mk d c' i o =>
+      rw [updateAt_output]
+      cases P with
+      | nil => rfl
+      | cons k' P' =>
+        rw [dataAt_cons, dataAt_cons]
+        simp only [mk_out, mk_d] at hc hr
+        by_cases hk : k' = "output"
+        · subst hk
+          rw [kid_output (by simpa using hr), kid_output (by simpa using hr)]
+          simp only [mk_out, List.head?_map, hc, Option.map_some, Option.getD_some, Option.bind_some]
+          apply ih hd
+          intro hpre; exact hP (List.cons_prefix_cons.mpr ⟨rfl, hpre⟩)
+        · have hI : implicitIO (Entry.mk d c' i (o.map (·.updateAt q g))) true = implicitIO (Entry.mk d c' i o) true := by
+            simp [implicitIO]
+          simp [kid, hr, hk, hI]
+
+/-- An update that cannot be seen below the node cannot be seen at all. -/
+theorem dataAt_update_invisible {e x : Entry} {np : NPath} {q : Path} (h : Tracks e np q x) {g : Entry → Entry}
+    (hg : NamePres g) (hinv : ∀ r, dataAt (g x) r = dataAt x r) : ∀ P : NPath, dataAt (e.updateAt q g) P = dataAt e P := by
+  intro P
+  by_cases hP : np <+: P
+  · obtain ⟨r, rfl⟩ := hP
+    simp only [dataAt]
+    rw [walk_update_below h hg, walk_append, h.walk]
+    exact hinv r
+  · have hd : SameData (g x) x := by
+      have := hinv []
+      simp only [dataAt_nil, Option.some.injEq] at this
+      exact this
+    exact dataAt_update_off h hg hd P hP
 
 end Goyang.Lemmas.AugmentTree
